@@ -36,7 +36,8 @@ ASSUMPTIONS = [
 ]
 XS = 'http://www.w3.org/2001/XMLSchema'
 ALLOW = ['all', 'remote', 'local', 'sandbox', 'none']
-SOURCE_KINDS = ['path', 'file_url', 'text_base_url', 'open_file']
+SOURCE_KINDS = ['path', 'file_url', 'text_base_url', 'open_file', 'text_remote_base']
+REMOTE_BASE = 'http://stub/sand'
 MECHS = ['include', 'import', 'redefine', 'override', 'hint', 'locations', 'uri_mapper', 'schemaless', 'locations_late']
 
 _EVENTS = None
@@ -156,6 +157,19 @@ class Tree:
         return out, T
 
 
+def remote_base_spellings(tree, kind):
+    """Locations for a main source given as text with a REMOTE base_url."""
+    T = {t: p.replace('lib_', kind + '_') for t, p in tree.targets.items()}
+    return [('remote', 'relative_to_remote_base', '%s_remote.xsd' % kind),
+            ('remote', 'below_remote_base', 'sub/%s_remote.xsd' % kind),
+            ('remote', 'dotted_remote_base', 'sub/../%s_remote.xsd' % kind),
+            ('remote', 'absolute_under_remote_base', REMOTE_BASE + '/%s_remote.xsd' % kind),
+            ('remote', 'http', 'http://stub/%s_remote.xsd' % kind),
+            ('remote', 'other_host', 'http://other/%s_remote.xsd' % kind),
+            ('in', 'absolute', T['in']), ('in', 'file_url', 'file://' + T['in']),
+            ('out', 'absolute', T['out']), ('out', 'file_url', 'file://' + T['out'])]
+
+
 def allowed(allow, target):
     """Reference predicate on the class of the resolved location."""
     if allow == 'all':
@@ -235,6 +249,9 @@ def run_row(tree, ver, allow, skind, mech, target, spname, loc):
             elif skind == 'text_base_url':
                 src = dtext
                 kw['base_url'] = tree.sand
+            elif skind == 'text_remote_base':
+                src = dtext
+                kw['base_url'] = REMOTE_BASE
             else:
                 fobj = src = open(doc2, 'rb')
             try:
@@ -261,6 +278,10 @@ def run_row(tree, ver, allow, skind, mech, target, spname, loc):
         elif skind == 'text_base_url':
             src = text
             kw['base_url'] = tree.sand
+        elif skind == 'text_remote_base':
+            # the base is a REMOTE prefix: everything below it is remote, which 'sandbox' and 'local' never allow
+            src = text
+            kw['base_url'] = REMOTE_BASE
         else:
             fobj = src = open(main_path, 'rb')
         try:
@@ -371,7 +392,9 @@ def rows(tree):
                 continue
             sp, _ = tree.spellings('imp' if mech in ('import', 'hint', 'locations', 'schemaless', 'locations_late') else 'inc')
             for allow, skind in itertools.product(ALLOW, SOURCE_KINDS):
-                for target, spname, loc in sp:
+                spk = sp if skind != 'text_remote_base' else remote_base_spellings(
+                    tree, 'imp' if mech in ('import', 'hint', 'locations', 'schemaless', 'locations_late') else 'inc')
+                for target, spname, loc in spk:
                     if mech in ('locations', 'uri_mapper', 'locations_late') and not (
                             os.path.isabs(loc) or '://' in loc):
                         # relative entries of locations/uri_mapper resolve against the process cwd,
